@@ -9,6 +9,19 @@ BASELINE = ("cd /repo && env -u PYCRAFT_VERIF /venv/bin/python -m pytest -ra -q 
             "--timeout=900 --continue-on-collection-errors")
 
 CHECKS = {
+    'C13': dict(
+        technique='TLA+ model of listener dispatch (Dispatch.tla) explored exhaustively over listener configurations; a seeded sample '
+                  'of behaviours replayed into a real Connection (S->I); larger random configurations validated by running the model '
+                  'from the recorded configuration in TLC (I->S, Trace_Dispatch)',
+        text='Dispatch.tla models _react / _write_packet / call_packet: early incoming listeners, the reaction, ordinary listeners, '
+             'early outgoing listeners that may suppress the write, ordinary outgoing listeners, IgnorePacket, filters over a class '
+             'poset (superclass and multi-type filters), in login and play states, with packets arriving one at a time or in one read '
+             'batch (answers then flush later or during disconnect). TLC checks NoDoubleCall, OnlyMatching, OrderWithinPacket, '
+             'IgnoreStops on all configurations with <= 1 listener per list; thousands of behaviours are replayed against the real '
+             'code with the registration order shuffled across lists and the exact call log and the answers the peer saw compared; '
+             'random configurations with up to 3 listeners per list are judged by TLC running the model from the recorded configuration.',
+        note='Trusted: TLC, virtual socket layer, peer codec. Listeners are registered while the networking thread is idle.',
+        design='5/C13'),
     'C09': dict(
         technique='TLA+ model of construction / negotiation / status queries (SessionNegotiate.tla) explored exhaustively; every '
                   'scenario instantiated with concrete protocol maps and replayed into a real Connection against the scripted '
